@@ -13,7 +13,8 @@
        removed/added delta of the container)
      5 a call through a quiet link: the slot is visited by the key's expression only
        through ':' (notify=False) nodes
-     6 a mutation raised
+     6 a mutation raised (other than ValueError for a new value on which a live non-optional expression
+       cannot be hooked)
      7 a call although nothing changed (same object re-assigned, equal container
        re-assigned, default materialised, registration itself)
 
@@ -60,6 +61,7 @@ Definition op_slot (o : op) : option (oid * fname) :=
   | AddTrait x _ => Some (x, TA)
   | DelCont x f => Some (x, f)
   | SpliceCont c f _ _ _ _ => Some (c, f)
+  | TouchItems x f _ => Some (x, f)
   end.
 
 Definition classify (t : traits) (hb ha : heap) (o : op) : chg :=
@@ -70,7 +72,8 @@ Definition classify (t : traits) (hb ha : heap) (o : op) : chg :=
       | [] => NoChange
       | y :: _ => match hb y (items_field f) with [] => NoChange | _ => Exact end
       end
-  | Observe _ _ _ | Unobserve _ _ _ | ObserveAll _ _ _ | UnobserveAll _ _ _ | Touch _ _ => NoChange
+  | Observe _ _ _ | Unobserve _ _ _ | ObserveAll _ _ _ | UnobserveAll _ _ _ | Touch _ _
+  | TouchItems _ _ _ => NoChange
   | SetRef x f _ => if list_eqb (hb x f) (ha x f) then NoChange else Exact
   | SetCont x f _ de =>
       let new_items := match ha x f with c :: _ => ha c (items_field f) | [] => [] end in
@@ -87,6 +90,21 @@ Definition classify (t : traits) (hb ha : heap) (o : op) : chg :=
 Definition is_splice (o : op) : bool := match o with Splice _ _ _ _ _ => true | _ => false end.
 Definition is_mutation (o : op) : bool := match op_slot o with Some _ => true | None => false end.
 Definition is_ok (o : outcome) : bool := match o with Ok => true | Raise _ => false end.
+
+(* A mutation may raise ValueError when a live expression cannot be hooked on an object it newly reaches
+   (a non-optional observer of a trait the object does not have): recomputed from the heaps with
+   [ObsCore.occ_all] (the residual graphs at the changed slot) and [Model.walkable]. *)
+Definition fresh_in (old new : list oid) : list oid := filter (fun y => negb (existsb (Nat.eqb y) old)) new.
+Definition unhookable (t : traits) (hb ha : heap) (rs : list reg) (x : oid) (f : fname) : bool :=
+  existsb (fun kc : hkey * graph =>
+             existsb (fun y => negb (walkable t ha (snd kc) y)) (fresh_in (hb x f) (ha x f)))
+          (occ_all t hb rs x f).
+Definition out_ok (t : traits) (hb ha : heap) (rs : list reg) (x : oid) (f : fname) (o : outcome) : bool :=
+  match o with
+  | Ok => true
+  | Raise ValueError => unhookable t hb ha rs x f
+  | Raise _ => false
+  end.
 
 Definition call_ok (hb ha : heap) (o : op) (x : oid) (f : fname) (c : call) : bool :=
   let '(_, obj, name, removed, added) := c in
@@ -114,7 +132,7 @@ Definition law_step (t : traits) (hb : heap) (rs : list reg) (o : op) (ob : obs)
       ++ chk 3 (nodup_b keys)
       ++ chk 4 (forallb (call_ok hb ha o x f) (ob_calls ob))
       ++ chk 5 (forallb (fun k => negb (mem_key k vis)) bad)
-      ++ chk 6 (is_ok (ob_out ob))
+      ++ chk 6 (out_ok t hb ha rs x f (ob_out ob))
       ++ chk 7 (match c with NoChange => forallb (fun k => negb (mem_key k exp)) keys | _ => true end)
   end.
 
